@@ -425,31 +425,65 @@ def sem(run, p, km):
     run.ob('C02-SEM', '%s::%s::each-expression' % (crc.rel, crc.short), okr,
            'rex: %s' % ('every expression of the list is compiled by itself' if okr else 'the expressions are not compiled one by one: %s' % [norm(c)[:50] for c in comps]), fn=crc)
     ver = km['type'][0]
-    t = tables.table(ver.node, tables.pick_result())
-    strict = [r for r in t if r[0] == ('strict',)]
-    ok = len(strict) == 1 and norm(strict[0][3].value) == 'actual_type in allowed_types'
-    n += 1
-    run.ob('C02-SEM', '%s::%s::strict' % (ver.rel, ver.short), ok, 'strict type checking is membership of the actual type', fn=ver)
-    sloppy = [norm(r[3].value) for r in t if r[0] != ('strict',)]
-    # sloppy: exact match true; int/bool from whole-number real; bool from object strings; otherwise false
-    gm = GuardMap(ver.node)
-    rows = {}
-    for lab, marks, comp, s in t:
-        if lab == ('strict',):
-            continue
-        conds = [g.text() for g in (gm.chain(s) or ()) if g.kind == 'if' and g.pol]
-        rows[' & '.join(c for c in conds if 'strict' not in c)] = norm(s.value)
-    want = {
-        'actual_type in allowed_types': 'True',
-        "'int' in allowed_types and actual_type == 'real'": 'self.get_non_integer_values_count(colname) == 0',
-        "'bool' in allowed_types and actual_type == 'real'": 'self.get_non_integer_values_count(colname) == 0',
-        "'bool' in allowed_types and actual_type == 'string'": 'self.get_all_non_nulls_boolean(colname)',
-        '': 'False',
-    }
-    n += 1
-    run.ob('C02-SEM', '%s::%s::sloppy' % (ver.rel, ver.short), rows == want,
-           'sloppy type table: %s' % rows, fn=ver, detail={'expected': want, 'found': rows})
-    run.floor('C02-SEM', n, 25)
+    n += type_table(run, p, ver)
+    run.floor('C02-SEM', n, 700)
+
+
+def type_table(run, p, ver):
+    """The type verifier evaluated on every combination of (checking mode, allowed types, actual type, has non-integer
+    values, all non-nulls boolean) with the column statistics stubbed: strict = membership; sloppy additionally accepts a
+    real column for int / bool when it holds whole numbers only and a string column for bool when its non-nulls are boolean."""
+    import itertools
+    from ..pyeval import Interp, Model, Obj, Unsupported
+
+    class Con(Model):
+        def __init__(self, value):
+            self.value = value
+            self.kind = 'type'
+    TYPES = ('bool', 'int', 'real', 'string', 'date')
+    allowed_sets = [('int',), ('bool',), ('real',), ('string',), ('date',), ('int', 'real'), ('bool', 'string'), ('int', 'string'),
+                    ('bool', 'int'), 'int', 'bool', 'real']
+    cls = ver.cls
+    bad = []
+    n = 0
+    for mode, allowed, actual, nonint, allbool in itertools.product(('strict', 'sloppy', None), allowed_sets, TYPES, (0, 2), (True, False)):
+        I = Interp(p)
+        o = Obj(p.cls('BaseConstraintVerifier'))
+        o.attrs['type_checking'] = mode
+
+        def hook(m, args, kwargs, selfobj, actual=actual, nonint=nonint, allbool=allbool):
+            stubs = {'column_exists': True, 'get_tdda_type': actual, 'get_non_integer_values_count': nonint,
+                     'get_all_non_nulls_boolean': allbool, 'detect_tdda_type_constraint': None}
+            if m.name in stubs:
+                return True, stubs[m.name]
+            if m.name == 'is_null':
+                return True, args[0] is None
+            return False, None
+        I.on_call = hook
+        value = list(allowed) if isinstance(allowed, tuple) else allowed
+        try:
+            got = I.call(ver, ['c', Con(value)], selfobj=o)
+        except Unsupported as e:
+            raise AnalysisError('%s is not evaluable: %s' % (ver.short, e))
+        al = allowed if isinstance(allowed, tuple) else (allowed,)
+        if actual in al:
+            want = True
+        elif mode == 'strict':
+            want = False
+        elif actual == 'real' and ('int' in al or 'bool' in al):
+            want = nonint == 0
+        elif actual == 'string' and 'bool' in al:
+            want = allbool
+        else:
+            want = False
+        n += 1
+        if bool(got) != want:
+            bad.append((mode, al, actual, nonint, allbool, got, want))
+    run.ob('C02-SEM', '%s::%s::type-table' % (ver.rel, ver.short), not bad,
+           'type verdicts over %d combinations of (mode, allowed types, actual type, non-integer values, boolean non-nulls)%s' % (
+               n, '' if not bad else '; wrong for e.g. mode=%s allowed=%s actual=%s non-integers=%s booleans=%s: %r instead of %r' % bad[0]),
+           fn=ver, detail={'wrong': bad[:5]} if bad else None)
+    return n
 
 
 def fuzz(run, p, km):
